@@ -164,7 +164,8 @@ def run_both(cases, tag, release=False, model=True, timeout=600):
 
     def run_model(cs, t):
         rng = {c["id"]: rng_events(impl.get(c["id"], [])) for c in cs}
-        rng = {k: v for k, v in rng.items() if v}
+        # a draw log too long for the model's (quadratic) oracle is not passed on: check.py does not compare such a case
+        rng = {k: v for k, v in rng.items() if v and len(v) <= 40000}
         return run_sharded(model_bin(), cs, t, with_rng=rng, timeout=timeout)
     mod, mprob = run_model(cases, tag + ".model")
     # The harness' per-case watchdog (4 s) can fire spuriously on a loaded machine.  Where the implementation was
